@@ -258,12 +258,12 @@ SERVER_STAGES = {
     'tls-immediate-handshake': ({'tls': 'immediate'}, [], ['silent', 'partial-clienthello']),
     'tls-immediate-banner': ({'tls': 'immediate'}, [('tls',), ('r', '220')], ['silent']),
     'banner': ({}, [('r', '220')], ['silent', 'partial-line']),
-    'ehlo': ({}, _EHLO, ['silent', 'partial-line', 'trickle-bytes']),
-    'mail': ({}, _MAIL, ['silent', 'partial-line']),
-    'rcpt': ({}, _RCPT, ['silent', 'partial-line']),
+    'ehlo': ({}, _EHLO, ['silent', 'partial-line', 'glued-partial-line', 'trickle-bytes']),
+    'mail': ({}, _MAIL, ['silent', 'partial-line', 'glued-partial-line']),
+    'rcpt': ({}, _RCPT, ['silent', 'partial-line', 'glued-partial-line']),
     'data': ({}, _DATA, ['silent', 'silent-partial-body', 'silent-after-line', 'partial-eod', 'trickle-bytes',
                          'trickle-lines']),
-    'eod': ({}, _EOD, ['silent', 'partial-line']),
+    'eod': ({}, _EOD, ['silent', 'partial-line', 'glued-partial-line']),
     'rset': ({}, _EOD + [('s', b'RSET\r\n'), ('r', '250')], ['silent']),
     # PLAIN / LOGIN are only accepted on an encrypted session; CRAM-MD5 also in clear text
     'auth-login-challenge': ({'auth': True, 'tls': 'starttls'}, _TLS_EHLO + [('s', b'AUTH LOGIN\r\n'), ('r', '334')],
@@ -277,7 +277,7 @@ SERVER_STAGES = {
                                ['silent', 'partial-line', 'trickle-bytes']),
     'starttls-handshake': ({'tls': 'starttls'}, _EHLO + [('s', b'STARTTLS\r\n'), ('r', '220')],
                            ['silent', 'partial-clienthello']),
-    'tls-ehlo': ({'tls': 'starttls'}, _TLS_EHLO, ['silent', 'partial-line']),
+    'tls-ehlo': ({'tls': 'starttls'}, _TLS_EHLO, ['silent', 'partial-line', 'glued-partial-line']),
     'tls-data': ({'tls': 'starttls'}, _TLS_EHLO + _DATA[3:], ['silent-partial-body', 'trickle-bytes']),
 }
 HANDSHAKE_STAGES = ('tls-immediate-handshake', 'starttls-handshake')
@@ -397,6 +397,14 @@ def run_server_case(sub):
     try:
         wd = gevent.Timeout(STEP_WATCHDOG)
         wd.start()
+        if pattern == 'glued-partial-line':
+            # the start of the next line arrives in the same segment as the end of the previous
+            # unit (command or end-of-data), then the client goes silent
+            prefix = list(prefix)
+            last_s = max(i for i, op in enumerate(prefix) if op[0] == 's')
+            glued = _fragment(sub, rnd, stage)
+            prefix[last_s] = ('s', prefix[last_s][1] + glued)
+            res.detail['fragment_glued_to_previous_unit'] = glued
         try:
             for op in prefix:
                 if op[0] == 'r':
